@@ -96,13 +96,19 @@ func init() {
 			c[2] = nfs
 			conts = append(conts, c)
 		}
+		inits := []interface{}{}
+		for _, nm := range [][]string{{}, {"wait-for-db", "migrate"}, {"b", "a", "c"}, {"only"}}[r.Intn(4)] {
+			inits = append(inits, []interface{}{"m", 0, []interface{}{[]interface{}{"name", []interface{}{"s", "!!str", nm, 0}}, []interface{}{"image", []interface{}{"s", "!!str", "busybox", 0}}}})
+		}
 		ops := []interface{}{}
 		for i := 0; i < r.Intn(4); i++ {
 			ops = append(ops, []interface{}{"s", "!!str", pick(r, []string{"CREATE", "UPDATE", "DELETE", "*"}), 0})
 		}
 		top := []interface{}{
 			[]interface{}{"spec", []interface{}{"m", 0, []interface{}{
-				[]interface{}{"template", []interface{}{"m", 0, []interface{}{[]interface{}{"spec", []interface{}{"m", 0, []interface{}{[]interface{}{"containers", []interface{}{"q", 0, conts}}}}}}}},
+				[]interface{}{"template", []interface{}{"m", 0, []interface{}{[]interface{}{"spec", []interface{}{"m", 0, []interface{}{[]interface{}{"containers", []interface{}{"q", 0, conts}},
+					// lists whose order MEANS something (init containers run one after the other): never reordered
+					[]interface{}{"initContainers", []interface{}{"q", 0, inits}}}}}}}},
 				[]interface{}{"zzz", genFmtNode(r, 2, dup)}, []interface{}{"replicas", genScalar(r)}}}},
 			[]interface{}{"webhooks", []interface{}{"q", 0, []interface{}{[]interface{}{"m", 0, []interface{}{[]interface{}{"rules", []interface{}{"q", 0, []interface{}{
 				[]interface{}{"m", 0, []interface{}{[]interface{}{"operations", []interface{}{"q", 0, ops}}}}}}}}}}}},
